@@ -128,6 +128,30 @@ def goGrow (round : List Nat) (oldCap needed : Nat) : Nat :=
   | some r => r
   | none => c
 
+/-- the range kinds `Tuple#slice` distinguishes (vm/tuple.go), with their integer bounds -/
+inductive RangeK where
+  | closed (s e : Int)          -- s...e
+  | leftOpen (s e : Int)        -- s<..e
+  | rightOpen (s e : Int)       -- s..<e
+  | open (s e : Int)            -- s<.<e
+  | beginlessOpen (e : Int)     -- ..<e
+  | beginlessClosed (e : Int)   -- ...e
+  | endlessOpen (s : Int)       -- s<..
+  | endlessClosed (s : Int)     -- s...
+deriving Repr, DecidableEq
+
+/-- first and last index (inclusive) a range denotes for a sequence of `len` elements:
+`start := 0; end := length - 1` and the `switch` over the range kinds -/
+def RangeK.bounds (len : Nat) : RangeK → Int × Int
+  | .closed s e => (s, e)
+  | .leftOpen s e => (s + 1, e)
+  | .rightOpen s e => (s, e - 1)
+  | .open s e => (s + 1, e - 1)
+  | .beginlessOpen e => (0, e - 1)
+  | .beginlessClosed e => (0, e)
+  | .endlessOpen s => (s + 1, (len : Int) - 1)
+  | .endlessClosed s => (s, (len : Int) - 1)
+
 inductive Op where
   | new (cap : Nat)                       -- NewArrayListOfValue(cap)
   | lit (cap : Nat) (xs : List Val)       -- NewArrayListOfValueWithElements(cap, xs...)
@@ -147,6 +171,7 @@ inductive Op where
   | sl (a : Nat) (f t : Int)              -- a.SliceArrayList(f, t)
   | cp (a : Nat)                          -- a.Copy()
   | cl (a : Nat) (cap : Int)              -- a.CloneArrayList(cap)
+  | vsl (o : Nat) (r : RangeK)            -- vm: `[]` with a range / Tuple#slice: a new list of the elements
   | vrem (o : Nat) (v : Val)              -- vm: ArrayList#remove
   | veq (a b : Nat)                       -- vm: ArrayList#==
   | vcon (o : Nat) (v : Val)              -- vm: contains
@@ -314,6 +339,19 @@ def step (g : Nat → Nat → Nat) (st : St) : Op → St × Ans
       else
         let (st', id) := allocObj st (window s a) (g cap.toNat s.len)
         (st', .obj id)
+  | .vsl o r =>
+    match look st o with
+    | none => (st, .bad)
+    | some (s, a) =>
+      let (lo, hi) := r.bounds s.len
+      match normIndex lo s.len, normIndex hi s.len with
+      | some i, some j =>
+        -- `var result []Value; for i := start; i <= end; i++ { result = append(result, at(i)) }`
+        let (st1, id) := allocObj st [] 0
+        match appendEach g st1 id (((window s a).drop i).take (j + 1 - i)) with
+        | some st2 => (st2, .obj id)
+        | none => (st, .bad)
+      | _, _ => (st, .oor)
   | .vrem o v =>
     match look st o with
     | none => (st, .bad)
